@@ -10,6 +10,7 @@ import numpy as np
 
 from vp import gen, probe
 from vp import defaults
+from vp import reuse
 
 RULE = ('seeded generator: seeds 0..2^32, signal levels 0..1e12 (Gaussian approximation only for counts >= 1000), frame '
         'shapes square or not, scalar and array inputs, model parameters; negative / > int64 signals for the rejection '
@@ -69,6 +70,7 @@ class Log:
 
 def workload(ctx, lentil):
     defaults.run(ctx, lentil, 'C18', 'deterministic')
+    reuse.run(ctx, lentil, 'C18', 'deterministic')
     rng = ctx.rng
     D = lentil.detector
     log = Log(ctx)
